@@ -48,6 +48,15 @@ func unsupported(format string, args ...any) {
 	panic(pathAbort{"unsupported", fmt.Sprintf(format, args...)})
 }
 
+// unsupportedAt adds the interpreted call stack to the message.
+func (fr *frame) unsupportedAt(format string, args ...any) {
+	msg := fmt.Sprintf(format, args...)
+	for f, n := fr, 0; f != nil && n < 8; f, n = f.caller, n+1 {
+		msg += " <- " + f.fn.String()
+	}
+	panic(pathAbort{"unsupported", msg})
+}
+
 // Violation is a failed obligation together with a model of the inputs.
 type Violation struct {
 	Label     string            `json:"label"`
